@@ -273,7 +273,7 @@ func runC06(c *wk.Ctx) {
 		})
 	}
 	// Case space: per history: 1 (no pause) + singles + npairs sampled pairs.
-	npairs := int(c.N(250, 12000))
+	npairs := int(c.N(250, 24000))
 	type caseRef struct {
 		h, kind, k int
 		pf         int // 0/1: slow steps first / paused goroutines first; -1: random
